@@ -69,7 +69,7 @@ def run_case(case, rec):
     cfg, x = case["cfg"], [float(v) for v in case["x"]]
     N = nn.cfgN(cfg)
     rec.case(case, nontrivial=(len(set(x)) > 1))
-    xa = np.array(x, dtype=float)
+    xa = nn.to_array(x, cfg)
     lab = nn.label(cfg)
     if kind == "ref":
         obj = nn.build(cfg)
